@@ -25,6 +25,8 @@ FLAVOURS = {
     "tsan": ("clang", "clang++", ["-O1", "-g", "-fno-omit-frame-pointer", "-fsanitize=thread"], ["-fsanitize=thread"]),
     "plain": ("clang", "clang++", ["-O1", "-g"], []),
     "rel": ("gcc", "g++", ["-O2", "-g", "-DNDEBUG"], []),
+    # source coverage of lcdb under the engines (driver/coverage.sh): a measuring aid for the generators, not a check
+    "cov": ("clang", "clang++", ["-O0", "-g", "-fprofile-instr-generate", "-fcoverage-mapping"], ["-fprofile-instr-generate"]),
 }
 
 WRAP_IO = ["open", "close", "read", "pread", "write", "fsync", "fdatasync", "rename", "unlink", "link",
